@@ -27,7 +27,7 @@ def cfg_builds(ctx):
             cmd = ["cargo", "check", "--offline", "-q", "-p", crate, "--no-default-features", "--target-dir", tgt]
             if feats:
                 cmd += ["--features", feats]
-            p = subprocess.run(cmd, cwd="/repo", stdout=subprocess.PIPE, stderr=subprocess.STDOUT, text=True)
+            p = subprocess.run(cmd, cwd=core.REPO, stdout=subprocess.PIPE, stderr=subprocess.STDOUT, text=True)
             evs.append({"ev": "cfgbuild", "id": "%s[%s]" % (crate, name), "cell": "%s[%s]" % (crate, name), "ok": p.returncode == 0,
                         "log": p.stdout[-600:] if p.returncode else ""})
     shutil.rmtree(tgt, ignore_errors=True)
@@ -48,7 +48,9 @@ def mini_crate(ctx, name, template, toml_feats, edit_feats, arg):
         'toml_datetime = { path = "/repo/crates/toml_datetime" }\nserde_json = "1.0"\n\n[profile.release]\ndebug-assertions = true\noverflow-checks = true\n'
         % (name.replace("-", ""), ft, fe))
     open(os.path.join(d, ".cargo", "config.toml"), "w").write('[net]\noffline = true\n[build]\ntarget-dir = "target"\n')
-    shutil.copy("/repo/Cargo.lock", os.path.join(d, "Cargo.lock"))
+    _ct = os.path.join(d, "Cargo.toml")
+    open(_ct, "w").write(open(_ct).read().replace('"/repo/', '"%s/' % core.REPO))
+    shutil.copy(os.path.join(core.REPO, "Cargo.lock"), os.path.join(d, "Cargo.lock"))
     shutil.copy(os.path.join(core.ROOT, "lib", "gen_templates", template), os.path.join(d, "src", "main.rs"))
     p = subprocess.run(["cargo", "run", "--release", "--offline", "-q", "--", arg], cwd=d, stdout=subprocess.PIPE, stderr=subprocess.PIPE, text=True)
     shutil.rmtree(os.path.join(d, "target"), ignore_errors=True)
